@@ -22,6 +22,7 @@
                        ([jaccard_zero_model_limit]: an admissible rounding makes it undefined)
         jensen         (x log x + x log x)/2 - ((x+x)/2) log((x+x)/2): needs rnd(2t)/2 = t (exact in
                        binary64 without overflow, not for an arbitrary rounding)
+      Witness roundings for bhattacharyya, chord, cosine, jensen: Proofs/FloatZeroNeg.v.
       hassanat is accepted on NonNeg only (on the real domain it can be undefined:
       [hassanat_model_limit]); gaussian (1 at identity) and statistic (signed, needs rnd(2t)/2 = t)
       are not dissimilarities and are rejected. *)
